@@ -498,6 +498,149 @@ fn references(ctx: &Ctx) {
     ctx.extra("references_made", json!(n));
 }
 
+/// References made while other operations of the same node draw numbers from the same source (unlink ids, monitor
+/// references) and succeed or fail: towards a live scripted peer, towards a connection entry that never completed its
+/// handshake, towards a node nobody is connected to. Every reference handed out (by `make_reference` and by
+/// `monitor`) must still be unique.
+fn references_among_other_operations(ctx: &Ctx, rng: &mut Rng) {
+    use crate::mon::net::{self, PEER_BASE_FLAGS};
+    use erltf::types::{Atom, ExternalPid};
+    let rt = tokio::runtime::Builder::new_multi_thread().worker_threads(8).enable_all().build().expect("runtime");
+    rt.block_on(async {
+        let epmd = net::start_epmd().await;
+        for round in 0..ctx.pick(3usize, 60usize) {
+            let name = format!("refpeer{}", round);
+            let pl = net::listen_as(&epmd, &name).await;
+            let peer_task = tokio::spawn(async move {
+                let Ok(mut peer) = pl.accept("cookie", PEER_BASE_FLAGS, 84).await else { return };
+                if peer.handshake().await.is_err() {
+                    return;
+                }
+                while peer.read_frame4().await.is_ok() {}
+            });
+            let mut node = edp_node::Node::new(format!("refnode{}@127.0.0.1", round), "cookie");
+            if let Err(e) = node.start(0).await {
+                ctx.inconclusive(&format!("Node::start failed: {}", e));
+                peer_task.abort();
+                continue;
+            }
+            let live = format!("{}@127.0.0.1", name);
+            if let Err(e) = node.connect(live.clone()).await {
+                ctx.inconclusive(&format!("Node::connect failed: {}", e));
+                peer_task.abort();
+                continue;
+            }
+            // an entry whose handshake never happened: every request over it is refused
+            let dead = "never_connected@127.0.0.1".to_string();
+            let dead_conn = Arc::new(tokio::sync::Mutex::new(edp_client::Connection::new(edp_client::ConnectionConfig::new(node.name().as_str(), dead.clone(), "cookie"))));
+            node.connections().insert(dead.clone(), dead_conn.clone());
+            // connections are used by one caller at a time: somebody else keeps holding this one for short whiles, so
+            // that requests queue up behind it the way they do behind a slow send
+            let stop = Arc::new(std::sync::atomic::AtomicBool::new(false));
+            let holder = {
+                let stop = stop.clone();
+                tokio::spawn(async move {
+                    while !stop.load(std::sync::atomic::Ordering::Relaxed) {
+                        let g = dead_conn.lock().await;
+                        for _ in 0..20 {
+                            tokio::task::yield_now().await;
+                        }
+                        drop(g);
+                        tokio::task::yield_now().await;
+                    }
+                })
+            };
+            let node = Arc::new(node);
+            let per = ctx.pick(1500usize, 6000usize);
+            let seed = rng.next_u64();
+            let mut makers = Vec::new();
+            for t in 0..6u64 {
+                let node = node.clone();
+                makers.push(tokio::spawn(async move {
+                    let mut r = Rng::new(seed ^ t);
+                    let mut v: Vec<(u32, Vec<u32>)> = Vec::with_capacity(per);
+                    for k in 0..per {
+                        let x = node.make_reference();
+                        v.push((x.creation, x.ids.clone()));
+                        if k % 4 == 0 || r.chance(1, 8) {
+                            tokio::task::yield_now().await;
+                        }
+                    }
+                    v
+                }));
+            }
+            let mut others = Vec::new();
+            for t in 0..8u64 {
+                let node = node.clone();
+                let (live, dead) = (live.clone(), dead.clone());
+                others.push(tokio::spawn(async move {
+                    let mut r = Rng::new(seed ^ (t + 100));
+                    let from = ExternalPid::new(node.name().clone(), 10 + t as u32, 0, node.creation());
+                    let mut v: Vec<(u32, Vec<u32>)> = Vec::new();
+                    let (mut ok, mut failed) = (0u64, 0u64);
+                    for _ in 0..per / 2 {
+                        let target = match r.below(4) {
+                            0 => &live,
+                            3 => "nobody@127.0.0.1",
+                            _ => &dead,
+                        };
+                        let to = ExternalPid::new(Atom::new(target), 20, 0, 1);
+                        let res = match r.below(3) {
+                            0 | 1 => node.unlink(&from, &to).await.map(|_| None),
+                            _ => node.monitor(&from, &to).await.map(Some),
+                        };
+                        match res {
+                            Ok(Some(x)) => {
+                                v.push((x.creation, x.ids.clone()));
+                                ok += 1;
+                            }
+                            Ok(None) => ok += 1,
+                            Err(_) => failed += 1,
+                        }
+                        if r.chance(1, 3) {
+                            tokio::task::yield_now().await;
+                        }
+                    }
+                    (v, ok, failed)
+                }));
+            }
+            let mut all: Vec<(u32, Vec<u32>)> = Vec::new();
+            for m in makers {
+                if let Ok(v) = m.await {
+                    all.extend(v);
+                }
+            }
+            let (mut ok, mut failed) = (0u64, 0u64);
+            for o in others {
+                if let Ok((v, a, b)) = o.await {
+                    all.extend(v);
+                    ok += a;
+                    failed += b;
+                }
+            }
+            stop.store(true, std::sync::atomic::Ordering::Relaxed);
+            let _ = holder.await;
+            peer_task.abort();
+            ctx.eval(all.len() as u64);
+            ctx.class("references/among-unlinks-and-monitors-that-succeed-or-fail");
+            ctx.count("other_operations_ok", ok);
+            ctx.count("other_operations_failed", failed);
+            let n = all.len();
+            let mut keys = all.clone();
+            keys.sort();
+            let dup = keys.windows(2).find(|w| w[0] == w[1]).map(|w| w[0].clone());
+            if let Some(d) = dup {
+                keys.dedup();
+                ctx.viol(
+                    "C16:duplicate-reference:among-other-operations",
+                    "a reference was handed out twice while unlink / monitor requests of the same node (some of them failing) drew from the same number source",
+                    json!({"round": round, "references": n, "distinct": keys.len(), "one_duplicate": {"creation": d.0, "ids": d.1}, "other_operations_ok": ok, "other_operations_failed": failed}),
+                );
+            }
+        }
+    });
+}
+
 struct Idle;
 impl edp_node::Process for Idle {
     async fn handle_message(&mut self, _msg: edp_node::Message) -> edp_node::Result<()> {
@@ -535,7 +678,7 @@ fn started_nodes(ctx: &Ctx) {
 }
 
 pub fn run(ctx: &Ctx) {
-    ctx.rule("(a) sequential allocations across 2..5 wraps and from counters preset just before the id wrap and the serial's 32-bit wrap; (a') histories of allocations interleaved with set_creation to new, the same and earlier values; (b) turn-based scheduler over the pid_alloc sync points + lock probe: interleavings of 2x1, 2x2, 3x1 (and 3x2, 4x1 thorough) allocations enumerated depth-first (exhaustive where marked), random schedules for 2..4 threads; (c) free-running stress 2..16 threads with seeded spin/yield/sleep at the hook points; (d) 16 threads x make_reference; (e) nodes started against a fake EPMD assigning creations 0, 1, 2, ..., 2^32-1: pids, references and the node's report must carry it; evaluations = schedules/rounds/allocations judged by the uniqueness oracle; distinct = distinct step orders actually realised (trace hashes) + configuration classes");
+    ctx.rule("(a) sequential allocations across 2..5 wraps and from counters preset just before the id wrap and the serial's 32-bit wrap; (a') histories of allocations interleaved with set_creation to new, the same and earlier values; (b) turn-based scheduler over the pid_alloc sync points + lock probe: interleavings of 2x1, 2x2, 3x1 (and 3x2, 4x1 thorough) allocations enumerated depth-first (exhaustive where marked), random schedules for 2..4 threads; (c) free-running stress 2..16 threads with seeded spin/yield/sleep at the hook points; (d) 16 threads x make_reference; (d') make_reference from 6 tasks while 8 tasks issue unlink / monitor requests of the same node towards a live peer, a connection entry that never completed its handshake and an unknown node (all references handed out, also by monitor, must be unique); (e) nodes started against a fake EPMD assigning creations 0, 1, 2, ..., 2^32-1: pids, references and the node's report must carry it; evaluations = schedules/rounds/allocations judged by the uniqueness oracle; distinct = distinct step orders actually realised (trace hashes) + configuration classes");
     ctx.assume("uniqueness is only claimed within 2^32 serial increments (a serial that wraps after 2^52 allocations re-issues pairs by construction)");
     let mut rng = Rng::derive(ctx.seed, 16, 1);
     sequential(ctx);
@@ -543,5 +686,6 @@ pub fn run(ctx: &Ctx) {
     enumerated(ctx, &mut rng);
     stress(ctx, &mut rng);
     references(ctx);
+    references_among_other_operations(ctx, &mut rng);
     started_nodes(ctx);
 }
